@@ -406,7 +406,7 @@ func (t *TriDense) Copy(a Matrix) (r, c int) {
 	case RawMatrixer:
 		amat := a.RawMatrix()
 		if t.isUpper() {
-			for i := 0; i < r; i++ {
+			for i := 0; i < min(r, c); i++ {
 				copy(t.mat.Data[i*t.mat.Stride+i:i*t.mat.Stride+c], amat.Data[i*amat.Stride+i:i*amat.Stride+c])
 			}
 		} else {
@@ -443,7 +443,14 @@ func (t *TriDense) Copy(a Matrix) (r, c int) {
 				copy(t.mat.Data[i*t.mat.Stride:i*t.mat.Stride+i+1], amat.Data[i*amat.Stride:i*amat.Stride+i+1])
 			}
 		default:
+			// The triangles are opposite: only the diagonal of a is
+			// non-zero in the triangle of the receiver.
 			for i := 0; i < r; i++ {
+				if tIsUpper {
+					zero(t.mat.Data[i*t.mat.Stride+i+1 : i*t.mat.Stride+c])
+				} else {
+					zero(t.mat.Data[i*t.mat.Stride : i*t.mat.Stride+i])
+				}
 				t.set(i, i, amat.Data[i*amat.Stride+i])
 			}
 		}
